@@ -24,6 +24,7 @@ ListsSmall == { <<>>, <<1>>, <<2>>, <<3>>, <<1,3>>, <<3,1>>, <<1,2>>, <<4>>, <<6
 ListsC01 == { <<>>, <<1>>, <<6>>, <<1,3>>, <<2>>, <<9>> }
 ListsC02 == { <<>>, <<1>>, <<2>>, <<3>>, <<1,3>>, <<3,1>>, <<1,2>>, <<4>>, <<5>>, <<8>> }
 ListsC09 == { <<>>, <<1>>, <<2>>, <<1,3>> }
+ListsBip30 == { <<>>, <<1>> }
 ListsC09Big == { <<>>, <<10>>, <<11>>, <<2>> }
 ListsC09T == { <<>>, <<1>>, <<2>>, <<1,3>>, <<3>>, <<1,3,7>>, <<10>>, <<11>>, <<10,11>> }
 BaseDef == << [v |-> 1000, h |-> 1], [v |-> 1000, h |-> 2] >>
